@@ -17,6 +17,7 @@ CHECKS = {
  "C10": ("exploration", "every sequence of <=3 rounds of Assume(list)+Solve with every list of <=2 literals (empty, repeated, contradictory) on every small base problem (with/without units, parse-time facts, parse-time Unsat) x heuristic choice list (<=1 deviation): every round against the truth table of base AND that round's assumptions", "§4 C10", EXPL),
  "C11": ("exploration", "every formula tree of depth <=1 over {a,b,c,true,false, exactly-one groups of 0..6 names} (also under one and two negations), every depth-2 tree over a reduced leaf set, ternary And/Or: bf.Solve returns nil iff the reference truth table is all false, otherwise the returned map satisfies the formula under every completion of omitted names. One genuine defect (exactly-one groups of >4 names at non-positive polarity) is a known finding.", "§4 C11", EXPL),
  "C12": ("exploration", "the C11 trees with exactly-one groups at positive polarity only: the bytes of bf.Dimacs are read by a reference DIMACS reader (header counts, ranges, name comments) and all models of the exported CNF are enumerated: formula true under an assignment of its names iff some export model agrees on the mapped names", "§4 C12", EXPL),
+ "C13": ("exploration", "semantic objects x layouts, both enumerated: small CNFs under 10 DIMACS layouts (comments, separators, clause split over lines at every position, two clauses per line, CRLF, no final newline) through solver.ParseCNF and explain.ParseCNF; OPB constraint sets with coefficients of either sign, >= and =, every degree, optional min: line, under 8 layouts; the C04 WCNF texts under 4 layouts: parsing never fails or panics, the parsed problem read structurally has exactly the object's models and costs, Solve/Optimal agree with the truth table", "§4 C13", EXPL),
  "C14": ("exploration", "problems (CNF, pigeonhole as cardinality constraints with one-edit neighbours, cardinality/PB sets, with/without cost function) x {DetectAtMostOne first, not} run with CuttingPlanes on under every heuristic choice list (<=1 deviation incl. forced Luby restarts and learned-PB reductions) and once with it off: every constraint/unit handed out by the cutting-planes learner is implied (truth table, under the cost bound in force), verdict/model/optimum equal to the truth table and to the strategy-off run. Two genuine defects of the learner are recorded as known findings.", "§4 C14", EXPL),
  "C15": ("exploration", "every graph on <=5 vertices as negative binary clauses (all clause orders / repeated edges for small edge sets), with <=2 extra clauses, cliques in every sign pattern, S4 multisets, cardinality/PB problems with two-literal constraints: the Problem after DetectAtMostOne, read structurally, has exactly the input's model set; CountModels agrees", "§4 C15", EXPL),
  "C06": ("exploration", "same space as C01 with certificate generation on: every certificate replayed by an independent RUP checker, every line checked for implication by truth table, differential against the uncertified twin run", "§4 C06", EXPL),
